@@ -142,14 +142,48 @@ def run(tier, replay=None):
                         model[tuple(t)]["infix"], o["s_labels"], o["s_nll"], o["s_dl"], o["nll"], o["dl"]), {"labels": t, "single": o}))
             # formulas with numeric literals next to parameters: the string entry point must fit exactly the formula's parameters
             lit = [("a0 + 3*x", ["+", "a0", "*", "3", "x"]), ("a0*x - 2", ["-", "*", "a0", "x", "2"]), ("2*x + a0/x", ["+", "*", "2", "x", "/", "a0", "x"]),
-                   ("a0*x + a1/x + 2", ["+", "+", "*", "a0", "x", "/", "a1", "x", "2"])]
+                   ("a0*x + a1/x + 2", ["+", "+", "*", "a0", "x", "/", "a1", "x", "2"]),
+                   ("a0/x**2 + a1", ["+", "/", "a0", "pow", "x", "2", "a1"]), ("a0*pow(x,-2) - 3", ["-", "*", "a0", "pow", "x", "-2", "3"]),
+                   ("a0/(x*(x+1))", ["/", "a0", "*", "x", "+", "x", "1"]), ("(a0-x)/x", ["/", "-", "a0", "x", "x"])]
             ljobs = [{"id": 1000 + q, "labels": lab, "infix": f, "basis": basis, "data_dir": dd, "fn_set": name, "seed": evidence.seed() + q} for q, (f, lab) in enumerate(lit)]
             jp, op = os.path.join(s, "c20_lit.json"), os.path.join(s, "c20_lit_out.json")
             json.dump(ljobs, open(jp, "w"))
             lo_ = pool.parallel("checks.c20:single_batch", [(jp, op)], s, timeout=3000)
             if lo_[0][0] != 0:
                 raise RuntimeError("single-fit worker failed: " + lo_[0][1][-800:])
-            for o in json.load(open(op)):
+            louts = json.load(open(op))
+            # the labels entry point on trees with (negative) integer constants: returned DL = likelihood + parameter code + Trees!Code
+            ilabs = [["*", "a0", "pow", "x", "-2"], ["+", "*", "a0", "x", "-2"], ["+", "*", "a0", "pow", "x", "-3", "a1"], ["/", "a0", "pow", "x", "2"], ["+", "*", "a0", "x", "3"]]
+            ilabs = [l for l in ilabs if all(t in sum(basis, []) or t in ("x",) or t.startswith("a") or t.lstrip("-").isdigit() for t in l)]
+            icodes = common.model_codes(r, ilabs, "codes_int_%s_%d_%d" % (name, n, di))
+            ijobs = [{"id": 2000 + q, "labels": lab, "infix": "x", "basis": basis, "data_dir": dd, "fn_set": name, "seed": evidence.seed() + q} for q, lab in enumerate(ilabs)]
+            jp2, op2 = os.path.join(s, "c20_int.json"), os.path.join(s, "c20_int_out.json")
+            json.dump(ijobs, open(jp2, "w"))
+            io_ = pool.parallel("checks.c20:single_batch", [(jp2, op2)], s, timeout=3000)
+            if io_[0][0] != 0:
+                raise RuntimeError("single-fit worker failed: " + io_[0][1][-800:])
+            for o in json.load(open(op2)):
+                lab = ilabs[o["id"] - 2000]
+                key = "%s:n%d:d%d:intlabels:%s" % (name, n, di, "_".join(lab))
+                if "raised" in o:
+                    r.violation("raised:" + key, "single_function(%s) raised %s" % (lab, o["raised"]), {"labels": lab})
+                    continue
+                try:
+                    ft = wls.fit(lab, x, y, sig)
+                except wls.NotLinear:
+                    continue
+                k_ = ft["k"]
+                th = o["params"][:k_]
+                kept = [j for j in range(k_) if th[j] != 0.0]
+                tcode = libproj.code_value(icodes[o["id"] - 2000])
+                plen_cf = wls.codelen(th, np.diag(ft["I"]), kept) if kept else 0.0
+                sum_ok = math.isfinite(o["dl"]) and abs((o["dl"] - o["nll"] - tcode) - plen_cf) <= 2e-5 * max(1.0, abs(plen_cf))
+                c3 = classes({"s": o["nll"], "c": ft["nll"]}, lambda m: max(2e-3, 2e-6 * m))
+                cases.append({"id": len(cases), "kind": "single", "sumOK": bool(sum_ok), "paramsOK": True, "hasPipe": False, "tie": True,
+                              "nllSingle": c3["s"], "nllClosed": c3["s"] if len(kept) != k_ else c3["c"], "dlSingle": 0, "dlClosed": 0, "nllPipe": NAN, "dlPipe": NAN})
+                meta.append((key, "labels %s: DL %.6f - nll %.6f - tree code %.6f (Trees!Code %s) = %.6f, closed-form parameter code %.6f" % (
+                    lab, o["dl"], o["nll"], tcode, icodes[o["id"] - 2000], o["dl"] - o["nll"] - tcode, plen_cf), {"labels": lab, "single": o}))
+            for o in louts:
                 f, lab = lit[o["id"] - 1000]
                 key = "%s:n%d:d%d:literal:%s" % (name, n, di, f)
                 if "s_raised" in o:
